@@ -137,6 +137,40 @@ class SymInterp(proto.Interp):
                 return self.sign(c, 1)
         return None
 
+    integer = True      # all quantities compared by ge0/resolve are integer-valued (indices, sizes)
+
+    def ge0(self, d):
+        """d >= 0 is derivable (for integer-valued forms, d > -1 suffices)."""
+        sg = self.sign(d)
+        if sg in ('+', '>=0', '0'):
+            return True
+        return bool(self.integer and self.sign(d + Lin.const(1)) == '+')
+
+    def resolve(self, d, depth=0):
+        """Replaces max/min atoms whose arguments are ordered under the stated assumptions by the dominating argument
+        (max(a, b) = a when a - b >= 0 is derivable), innermost first."""
+        from .sym import mk_ext
+        out = Lin()
+        for k, v in d.d.items():
+            if isinstance(k, tuple) and k[0] in ('max', 'min') and depth < 5:
+                args = [self.resolve(a, depth + 1) for a in k[1:]]
+                keep = list(args)
+                for a in args:
+                    for b in args:
+                        if a is b or not any(a is x for x in keep) or not any(b is x for x in keep) or len(keep) < 2:
+                            continue
+                        if self.ge0(a - b):          # a >= b
+                            drop = b if k[0] == 'max' else a
+                            keep = [x for x in keep if x is not drop]
+                out = out + mk_ext(k[0], keep).scale(v)
+            else:
+                out = out + Lin({k: v})
+        return out
+
+    def same(self, a, b):
+        from .sym import equal
+        return equal(a, b) or equal(self.resolve(a), self.resolve(b))
+
     def interpreted(self, d):
         """True when the normal form is built only from parameters, bound spec variables, constants and
         + - * // max min: then it is exact, and a sign the rules cannot derive almost surely does not hold for all inputs."""
